@@ -316,7 +316,7 @@ def check(ctx):
                               'the replacement keeps %s of the comment text (re.sub(%r, ...)); the grammar skips only space, tab, CR and LF, so a comment containing e.g. a '
                               'form feed or a no-break space changes whether the module is accepted' % (kept if kind != 'only' else sorted(kept), pattern),
                               stmt='replacement keeps non-skippable characters')
-        if n_repl < 2:
+        if n_repl < 1:
             raise AnalysisError('%s: comment replacement sites not found' % fq)
         # tiling: after each replacement the verbatim cursor is set to the end of the region; the tail is appended; the result is the join
         tail = any(isinstance(a_.args[0], ast.Subscript) and isinstance(a_.args[0].slice, ast.Slice) and a_.args[0].slice.upper is None and a_.args[0].slice.lower is not None
